@@ -528,6 +528,8 @@ static void run_weighted(void)
     /* merges of weighted summaries */
     for (int k = 0; k <= n; k++) {
         for (int order = 0; order < 2; order++) {
+            struct cmb_wtdsummary into_third;
+            memset(&into_third, 0, sizeof into_third);
             for (int alias = 0; alias < 3; alias++) {
                 struct cmb_wtdsummary a, b, t;
                 wsummarise(&a, x, w, k, 1.0);
@@ -540,6 +542,21 @@ static void run_weighted(void)
                 vx_transition();
                 char what[80];
                 snprintf(what, sizeof what, "weighted:merge:%s", (e1 && e2) ? "both-empty" : (e1 || e2) ? "one-empty" : "nonempty");
+                /* whatever the weighted higher moments are defined to be: the result of a merge is the same whether it
+                 * is written to a third summary, over the first operand or over the second */
+                if (alias == 0) {
+                    into_third = *tgt;
+                }
+                else if (memcmp(&into_third, tgt, sizeof into_third) != 0) {
+                    const struct cmb_datasummary *p0 = (const struct cmb_datasummary *)&into_third;
+                    const struct cmb_datasummary *p1 = (const struct cmb_datasummary *)tgt;
+                    snprintf(rule, sizeof rule, "%s:target-is-%s-operand", what, alias == 1 ? "first" : "second");
+                    FAIL(rule, "merged into the %s operand: count %" PRIu64 " m1 %.17g m2 %.17g m3 %.17g m4 %.17g wsum %.17g; "
+                         "into a third summary: count %" PRIu64 " m1 %.17g m2 %.17g m3 %.17g m4 %.17g wsum %.17g",
+                         alias == 1 ? "first" : "second", p1->count, p1->m1, p1->m2, p1->m3, p1->m4, tgt->wsum,
+                         p0->count, p0->m1, p0->m2, p0->m3, p0->m4, into_third.wsum);
+                    return;
+                }
                 if (cmb_wtdsummary_count(tgt) != r.count) {
                     snprintf(rule, sizeof rule, "%s:count", what);
                     FAIL(rule, "merged count %" PRIu64 ", exact %" PRIu64, cmb_wtdsummary_count(tgt), r.count);
